@@ -20,7 +20,7 @@ GROUP_ENV = {'pure': {'NUMBA_DISABLE_JIT': '1'}, 'jit': {}}
 MIN_DECISIVE = {'quick': 100, 'thorough': 800}
 CASE_TIMEOUT = 900
 RULE = ('each case = (monitor, implementation, use_static, RNG sub-seed) evaluated at 6 random points (colatitude in (0.1,pi-0.1), '
-        'longitude, time, n in 1e-6..1e-4, spin/n in [-3,3], e in [0,0.4], obliquity in [0,1.2]); limit/anchor cases use fixed small-parameter ladders; '
+        'longitude, time, n in 1e-6..1e-4, spin/n in [-3,3] incl. exact commensurabilities j/2 (zero-frequency modes), e in [0,0.4], obliquity in [0,1.2]); limit/anchor cases use fixed small-parameter ladders; '
         'non-trivial = all mode tuples finite and the potential scale non-zero; distinct by (monitor, implementation, static, sub-seed)')
 ASSUMPTIONS = ['orientation conventions of the exact oracle (pericentre and node on +x, prograde spin, orbit normal tilted by -I about x) were validated against the no-obliquity, medium-obliquity and synchronous variants',
                'truncation-order budgets: medium-e variants 80 e^4 (observed up to 40.4 e^4 at e=0.1), low-e variants 20 e^2, medium-obliquity variants 80 (e+I)^4 (relative to G M R^2/a^3)']
@@ -107,10 +107,13 @@ def gen_cases(tier, seed):
     return cases
 
 
-def rnd_point(rng):
+def rnd_point(rng, commens=True):
     n = 10 ** rng.uniform(-6, -4)
+    ratio = float(rng.uniform(-3, 3))
+    if commens and rng.random() < 0.3:
+        ratio = float(rng.integers(-6, 7)) / 2.0        # exact spin-orbit commensurabilities: some mode frequencies are exactly zero (static terms)
     return dict(th=float(rng.uniform(0.1, math.pi - 0.1)), ph=float(rng.uniform(0, 2 * math.pi)), t=float(rng.uniform(0, 30) / n), n=n,
-                o=float(n * rng.uniform(-3, 3)), e=float(rng.uniform(0, 0.4)), I=float(rng.uniform(0, 1.2)))
+                o=float(n * ratio), e=float(rng.uniform(0, 0.4)), I=float(rng.uniform(0, 1.2)))
 
 
 def eval_case(c):
@@ -193,6 +196,13 @@ def eval_case(c):
                     static_part = tn - n0
                     if np.max(np.abs((tm - t0) - nmodes * static_part)) <= 1e-10 * sc * nmodes and np.max(np.abs(t0 - n0)) <= 1e-11 * sc:
                         key = 'static-term-replicated-per-mode'
+                    else:
+                        # at a spin-orbit commensurability further modes are time independent: the replicated part is still the zonal static
+                        # term Z, which does not depend on spin or time and is observed at a non-commensurate spin
+                        args2 = args[:4] + (p['o'] * 1.2345 + 0.0371 * p['n'],) + args[5:]
+                        Z = total(nm2, *args2, static=True)[0] - total(nm2, *args2, static=False)[0]
+                        if np.max(np.abs((tm - tn) - (nmodes - 1) * Z)) <= 1e-10 * sc * nmodes:
+                            key = 'static-term-replicated-per-mode'
                 V(key, f'{name} (static={st}): sum over {nmodes} modes differs from {nm2} by {err:.3e} of scale at {p}', nmodes=nmodes)
             worst = max(worst, err)
             nontriv = True
@@ -200,7 +210,7 @@ def eval_case(c):
     elif mon == 'limits':
         worst = {}
         for _ in range(4):
-            p = rnd_point(rng)
+            p = rnd_point(rng, commens=False)   # which terms are static changes at a commensurability; the external oracles here assume none
             cnt['points'] += 1
             a = lambda e, I, o=p['o']: (np.array([p['th']]), np.array([p['ph']]), np.array([p['t']]), p['n'], o, e, I)
             if 'obliquity' in name and 'no_obliquity' not in name:
@@ -258,7 +268,7 @@ def eval_case(c):
             if 'med_obliquity' in name and I > 0.2:
                 continue
             for _ in range(3):
-                p = rnd_point(rng)
+                p = rnd_point(rng, commens=False)   # which terms are static changes at a commensurability; the external oracles here assume none
                 spin = p['n'] if name == 'synchronous_low_e' else p['o']
                 cnt['anchor_points'] += 1
                 tot, nmodes = total(name, np.array([p['th']]), np.array([p['ph']]), np.array([p['t']]), p['n'], spin, e, I, static=st)
